@@ -109,14 +109,40 @@ def gen(repo):
     gm = squash(fn_body(dest, "get_matching_file"))
     if "meta.is_file() && meta.len() == size" not in gm:
         raise ExtractError("LocalDestination::get_matching_file changed")
+    # --- PackInfo::coalesce: which side's from_file must be None for a merge (the merged entry keeps self.from_file)
+    i = rest.find("impl PackInfo")
+    if i < 0:
+        raise ExtractError("impl PackInfo not found in restore.rs")
+    co = squash(fn_body(rest[i:], "coalesce"))
+    if "from_file: self.from_file" not in co or "self.locations.append(other.locations)" not in co or "self.pack_id == other.pack_id" not in co:
+        raise ExtractError("PackInfo::coalesce: merge no longer keeps self.from_file / appends other.locations")
+    gs, go = "self.from_file.is_none()" in co, "other.from_file.is_none()" in co
+    if gs and not go:
+        meta["coalesce_guard"] = "CgSelf"
+    elif go and not gs:
+        meta["coalesce_guard"] = "CgOther"
+    else:
+        raise ExtractError("PackInfo::coalesce: guard on from_file has an unrecognised shape")
+    if "if from_file.is_some() { read_data.clone() }" not in rc:
+        raise ExtractError("restore_contents: `if from_file.is_some() { read_data.clone() }` not found")
+    blob = read(repo, "crates/core/src/blob.rs")
+    cc = squash(fn_body(blob, "can_coalesce"))
+    if cc.replace(" ", "") != "other.offset<=self.offset+self.length+constants::MAX_HOLESIZE&&other.offset>=self.offset+self.length&&other.offset+other.length-self.offset<=constants::LIMIT_PACK_READ":
+        raise ExtractError("BlobLocations::can_coalesce changed")
+    meta["max_holesize"] = int_expr(const_value(blob, "MAX_HOLESIZE"))
+    meta["limit_pack_read"] = int_expr(const_value(blob, "LIMIT_PACK_READ"))
     b = lambda x: "true" if x else "false"
     out = ["(* GENERATED by props/C14/extract.py from blob/tree.rs, commands/restore.rs,",
            "   backend/local_destination.rs - do not edit *)",
+           "From Coq Require Import NArith.",
            "From Verif.C14 Require Import Model.",
            "Definition code_cfg : cfg := mkC %s %s %s." % (b(meta["c_names"]), b(meta["c_exists"]), b(meta["c_sparse_pre"])),
            "(* the comparison of the merge-walk in collect_and_prepare is Path::cmp (component-wise), the order",
            "   WalkDir::sort_by_file_name and the node streamer deliver; Model.collect uses pcmp = Order.ncmp *)",
            "Definition merge_cmp_component_wise : bool := %s." % b(meta["merge_cmp_component_wise"]),
+           "(* PackInfo::coalesce: the side whose from_file must be None; BlobLocations::can_coalesce with its constants *)",
+           "Definition code_coalesce_guard : cguard := %s." % meta["coalesce_guard"],
+           "Definition code_cc : pinfo -> pinfo -> bool := can_coalesce %d%%N %d%%N." % (meta["max_holesize"], meta["limit_pack_read"]),
            ""]
     return "\n".join(out), meta
 
